@@ -353,7 +353,7 @@ func (c *eventCacheEvsIndex) keysFromReqFilter(filter *ReqFilter) [][]eventCache
 }
 
 func (c *eventCacheEvsIndex) isFullScanReqFilter(filter *ReqFilter) bool {
-	return filter.IDs == nil && filter.Authors == nil && filter.Kinds == nil && filter.Tags == nil
+	return filter.IDs == nil && filter.Authors == nil && filter.Kinds == nil && len(filter.Tags) == 0
 }
 
 func (c *eventCacheEvsIndex) Add(event *Event) {
